@@ -151,6 +151,25 @@ pub(crate) fn execute_merge<S: GraphSnapshot>(
 pub trait WriteableGraph {
     fn create_node(&mut self, external_id: ExternalId, label_id: LabelId)
     -> Result<InternalNodeId>;
+    /// Whether `external_id` is already taken by a node of the database or of this transaction.
+    /// Implementations that cannot tell answer `false`.
+    fn external_id_in_use(&self, _external_id: ExternalId) -> bool {
+        false
+    }
+    /// Creates a node under the first free external id at or after `preferred`. Generated ids
+    /// are derived from the clock, which may stall, repeat or step backwards; the id must still
+    /// be one no node ever had.
+    fn create_node_with_generated_id(
+        &mut self,
+        preferred: ExternalId,
+        label_id: LabelId,
+    ) -> Result<InternalNodeId> {
+        let mut external_id = preferred;
+        while self.external_id_in_use(external_id) {
+            external_id = external_id.wrapping_add(1);
+        }
+        self.create_node(external_id, label_id)
+    }
     fn add_node_label(&mut self, node: InternalNodeId, label_id: LabelId) -> Result<()>;
     fn remove_node_label(&mut self, node: InternalNodeId, label_id: LabelId) -> Result<()>;
     fn create_edge(
